@@ -215,16 +215,16 @@ func reclaimCheck(ctx context.Context, se *stackEnv) (problems []string, stats m
 func missingReferencedParts(ctx context.Context, se *stackEnv) []string {
 	insp, err := vmodel.OpenInspector(se.dir)
 	if err != nil {
-		return nil
+		return []string{"harness: inspector: " + err.Error()}
 	}
 	defer insp.Close()
 	refs, err := insp.AllPartRefs()
 	if err != nil {
-		return nil
+		return []string{"harness: inspector: " + err.Error()}
 	}
 	held, err := vmodel.StorePartIDs(ctx, se.env.DB, se.s)
 	if err != nil {
-		return nil
+		return []string{"harness: store listing: " + err.Error()}
 	}
 	var out []string
 	for st, ids := range refs {
